@@ -1,334 +1,612 @@
 """C10 - configured form limits are enforced and are pure guards (structural clauses).
 
-Guards are read through canonical atoms with copy propagation of local aliases
-(wzsa/guards.py); a size check extracted into a one-level helper method is
-followed.
+All clauses are decided on paths with a symbolic store over a normalised copy of each function
+(wzsa/rules/_c09_helpers.py): helpers of the class / module are expanded in place (a guard in a helper, an
+operation in a helper and the inline original have one CFG), conditional expressions are branches, every condition
+is a canonical integer linear atom over the values at the start of the path.  A clause asks "do the conditions of
+every path that performs the operation guarantee the bound", never "is there a statement that looks like the test".
 """
 
 from __future__ import annotations
 
 import ast
+import re
+import typing as t
 
 from .. import astq
-from ..cfg import CFG, Node, cfg_of
 from ..dataflow import ReachingDefs
-from ..guards import Aliases, canon
-from ..loader import AnalysisError, FuncInfo, dotted, norm, walk_no_nested
+from ..guards import Aliases
+from ..loader import AnalysisError, ClassInfo, FuncInfo, dotted, norm, walk_no_nested
 from ..report import Ctx
+from ._c09_helpers import Ev, Lin, NFunc, Path, Sym, both, canon_atom, fold_access, implies_le, invariant_env, lin, mentions, normalise, symname
+from ._c10_helpers import RETL, bind_call, callee_last, exceed_conds, raised_retl, roots_of
 from .c09 import input_stream_rule
 
 LEVEL_TEXT = (
-    "Static decision of structural clauses of C10 on /repo's current source: (R10.1) the only statement that grows the "
-    "multipart decoder's buffer is reachable only past the false edge of `len(buffer)+len(data) > max_form_memory_size` "
-    "(or with the limit None), whose true edge raises RequestEntityTooLarge; (R10.2) every path from the construction of "
-    "a Field/File event to the function's exit passes the part counter's increment and the `> max_parts` test; (R10.3) "
-    "the write of field data is reachable, within the Data branch, only past the accumulated-size test (inline or in a "
-    "one-level helper), the size is reset per Field and disabled per File; (R10.4) unbounded reads of the urlencoded body "
-    "are dominated by a bound, and get_input_stream's decision table holds (shared with C09-R9.6); (R10.5) each of the "
-    "three limits is forwarded, by keyword, through every constructor of the chain and stored in the attribute the guards "
-    "read; request-level defaults are the documented ones; (R10.6) every use of a limit value or size counter is a guard "
-    "comparison whose only effect is raising RequestEntityTooLarge, an is-None test, a forwarding edge, a local alias used "
-    "only in such ways, the counter's own update or the limit of a maximum-limited stream - non-interference, hence "
-    "'identical result when no guard fires'. It decides these clauses on all paths; memory held inside the stdlib is not "
-    "modelled."
+    "Static decision of structural clauses of C10 on /repo's current source, on all paths of a normalised form of each "
+    "function (helpers expanded, conditional expressions as branches, conditions as canonical integer linear atoms over "
+    "the values at the start of the path): (R10.1) on every path to a growth of the multipart decoder's buffer the "
+    "conditions guarantee len(buffer)+len(data) <= max_form_memory_size (or the limit is None), every path that takes a "
+    "comparison against the limit on its exceeded side ends in RequestEntityTooLarge, nothing else grows the buffer; "
+    "(R10.2) every path of next_event that constructs a Field/File event moves the part counter by exactly one and "
+    "guarantees counter <= max_parts at the exit (or the limit is None), other paths do not move it; (R10.3) in "
+    "MultiPartParser.parse every path from taking an event to handing its data on guarantees accumulated size + "
+    "len(event.data) <= max_form_memory_size (or the limit / the counter is None), the counter is kept at that sum, reset "
+    "per Field and disabled per File; (R10.4) unbounded reads of the urlencoded body are preceded by a bound, and "
+    "get_input_stream's decision table holds (shared with C09-R9.6); (R10.5) each of the three limits reaches the "
+    "parameter of the same meaning of every constructor of the chain (by keyword or position, through aliases) and is "
+    "stored in the attribute the guards read; request-level defaults are the documented ones; (R10.6) every use of a "
+    "limit value or of an accumulating counter compared with one is a guard comparison whose exceeded side only raises "
+    "RequestEntityTooLarge, an is-None test, a forwarding edge, an alias / the counter's own update, or the limit of a "
+    "maximum-limited stream - non-interference, hence 'identical result when no guard fires'. Memory held inside the "
+    "stdlib is not modelled."
 )
 TRUSTED = ["CPython ast", "bytearray.extend(data) grows the buffer by len(data)"]
-ASSUMPTIONS = ["SpooledTemporaryFile and parse_qsl internals are not followed", "limits are ints or None"]
+ASSUMPTIONS = [
+    "SpooledTemporaryFile and parse_qsl internals are not followed",
+    "limits, lengths and counters are ints or None, so a > b is a >= b + 1",
+    "expanding a helper of the same class / module in place preserves its meaning (no recursion deeper than three levels, no generator helpers)",
+    "an event object is an instance of at most one of the unrelated event classes; a callable kept in an instance attribute does not modify the instance",
+]
 
 LIMIT_ATTRS = {"max_form_memory_size", "max_form_parts", "max_parts", "max_content_length"}
-COUNTERS = {"field_size", "_parts_decoded"}
+GROW = {"extend": None, "append": 1, "insert": 1, "__iadd__": None, "write": None}
 
 
-class F:
-    """a function with its CFG, reaching definitions and alias expander."""
-
-    def __init__(self, fi: FuncInfo):
-        self.fi = fi
-        self.cfg = cfg_of(fi)
-        self.rd = ReachingDefs(self.cfg, fi.params)
-        self.al = Aliases(self.cfg, self.rd)
-
-    def tests(self):
-        return [t for t in self.cfg.tests() if t.kind == "test"]
-
-    def exp(self, t: Node) -> ast.AST:
-        return self.al.expand(t.ast, t)
+def _not_dunder(h: FuncInfo) -> bool:
+    return not (h.name.startswith("__") and h.name.endswith("__"))
 
 
-def _is_limit(e: ast.AST, names: set[str]) -> bool:
-    return (isinstance(e, ast.Attribute) and e.attr in names) or (isinstance(e, ast.Name) and e.id in names)
-
-
-def _cmp_limit(e: ast.AST, limit_names: set[str]):
-    """(bounded expression, strict?) when e is `bounded >(=) limit` / `limit <(=) bounded` (possibly under `not`: then the
-    polarity is flipped and reported as third element)."""
-    pos = True
-    while isinstance(e, ast.UnaryOp) and isinstance(e.op, ast.Not):
-        e = e.operand
-        pos = not pos
-    cp = astq.cmp_parts(e)
-    if not cp:
-        return None
-    a, op, b = cp
-    if isinstance(op, (ast.Gt, ast.GtE)) and _is_limit(b, limit_names):
-        return a, pos
-    if isinstance(op, (ast.Lt, ast.LtE)) and _is_limit(a, limit_names):
-        return b, pos
-    # `bounded <= limit` under F / not
-    if isinstance(op, (ast.LtE, ast.Lt)) and _is_limit(b, limit_names):
-        return a, not pos
-    if isinstance(op, (ast.GtE, ast.Gt)) and _is_limit(a, limit_names):
-        return b, not pos
-    return None
-
-
-def _none_test(e: ast.AST, names: set[str]):
-    """(is the atom `X is None`?, polarity) for X a limit"""
-    k, p = canon(e)
-    for nm in names:
-        for base in (f"self.{nm} is None", f"{nm} is None"):
-            if k == base:
-                return p
-    return None
-
-
-def _exceeds_edge(f: F, t: Node, limit_names: set[str]):
-    """for a test comparing something with a limit: (bounded expr, label of the edge on which the bound is exceeded)."""
-    r = _cmp_limit(f.exp(t), limit_names)
-    if r is None:
-        return None
-    bounded, pos = r
-    return bounded, ("T" if pos else "F")
-
-
-def _raises_retl(cfg: CFG, t: Node, label: str) -> bool:
-    succ = cfg.succ(t, label)
-    return bool(succ) and all(isinstance(s.ast, ast.Raise) and astq.raised_name(s.ast) == "RequestEntityTooLarge" for s in succ)
-
-
-def _skip_edges(f: F, limit_names: set[str], extra_none: tuple[str, ...] = ()) -> list[tuple[Node, str]]:
-    """edges taken when the limit (or a named counter) is None: the bound does not apply there."""
-    out = []
-    for t in f.tests():
-        e = f.exp(t)
-        p = _none_test(e, limit_names)
-        if p is not None:
-            out.append((t, "T" if p else "F"))
-            continue
-        k, pp = canon(e)
-        for nm in extra_none:
-            if k == f"{nm} is None":
-                out.append((t, "T" if pp else "F"))
-    return out
+def _limit_skipped(conds: set, limit: str) -> bool:
+    return (f"{limit} is None", True) in conds
 
 
 def run(ctx: Ctx) -> None:
     repo = ctx.repo
     for rid, text in {
-        "R10.1": "buffer growth in MultipartDecoder is reachable only past the not-exceeded edge of the size test (or limit None); the exceeded edge raises RequestEntityTooLarge; nothing else grows the buffer",
-        "R10.2": "every path from constructing a Field/File event to the exit of next_event passes `_parts_decoded += 1` and the `> max_parts` test",
-        "R10.3": "in MultiPartParser.parse the write of event.data is reachable in the Data branch only past the accumulated field-size test (or limit None / file part); field_size reset at Field, None at File",
+        "R10.1": "on every path to a growth of MultipartDecoder.buffer the conditions guarantee len(buffer) + len(data) <= max_form_memory_size (or the limit is None); a path on the exceeded side of a comparison with the limit raises RequestEntityTooLarge; nothing else grows the buffer",
+        "R10.2": "every path of next_event that constructs a Field/File event moves _parts_decoded by one and guarantees it is <= max_parts at the exit (or the limit is None)",
+        "R10.3": "in MultiPartParser.parse every path that hands event.data on guarantees accumulated size + len(event.data) <= max_form_memory_size (or limit None / file part); the counter is reset at Field, None at File",
         "R10.4": "urlencoded body: an unbounded stream.read() is dominated by a size bound; get_input_stream decision table (declared length, streamed maximum)",
-        "R10.5": "each limit is forwarded by keyword through the whole constructor chain and stored in the attribute the guards read; Request defaults 500000 / 1000 / None",
+        "R10.5": "each limit reaches the same-named parameter of every constructor of the chain and is stored in the attribute the guards read; Request defaults 500000 / 1000 / None",
         "R10.6": "every use of a limit value or size counter is a pure guard, a forwarding edge, a local alias used only so, the counter's update, or the limit of LimitedStream(is_max=True)",
     }.items():
         ctx.rule(rid, text)
 
     dec = repo.cls("sansio.multipart.MultipartDecoder")
+    _r101(ctx, dec)
+    _r102(ctx, dec)
+    mp = repo.cls("formparser.MultiPartParser")
+    _r103(ctx, mp)
+    fp = repo.cls("formparser.FormDataParser")
+    _r104(ctx, fp)
+    input_stream_rule(ctx, "R10.4")
+    _r105(ctx)
+    _r106(ctx, dec, fp, mp)
 
-    # ---------------- R10.1 -------------------------------------------
-    growth = []
-    for name, fi in dec.methods.items():
-        for n in walk_no_nested(fi.node):
-            if isinstance(n, ast.Call) and isinstance(n.func, ast.Attribute) and astq.is_self_attr(n.func.value, "buffer") and n.func.attr in ("extend", "append", "insert", "__iadd__"):
-                growth.append((fi, n))
-            if isinstance(n, ast.AugAssign) and astq.is_self_attr(n.target, "buffer"):
-                growth.append((fi, n))
-            if isinstance(n, ast.Assign) and any(astq.is_self_attr(t_, "buffer") for t_ in n.targets) and name != "__init__":
-                growth.append((fi, n))
-            if isinstance(n, ast.Assign) and any(isinstance(t_, ast.Subscript) and astq.is_self_attr(t_.value, "buffer") for t_ in n.targets):
-                growth.append((fi, n))
-    ctx.floor("R10.1", "buffer growth sites", len(growth), 1)
-    for fi, g in growth:
+
+# ---------------------------------------------------------------------
+# R10.1
+
+
+def _buffer_term(e: ast.AST | None) -> bool:
+    return e is not None and (norm(e) == "self.buffer" or (isinstance(e, ast.Name) and e.id.startswith("self.buffer\u00b7")))
+
+
+def _growths(p: Path) -> list[tuple[Ev, ast.AST, Lin | None]]:
+    """(event, buffer term at that moment, number of bytes added) for every growth of self.buffer on the path."""
+    out = []
+    for e in p.events:
+        if e.kind == "call" and isinstance(e.call, ast.Call) and isinstance(e.call.func, ast.Attribute) and _buffer_term(e.call.func.value) and e.call.func.attr in GROW:
+            c = GROW[e.call.func.attr]
+            if c is not None:
+                added: Lin | None = Lin({}, c)
+            else:
+                a = e.call.args[0] if len(e.call.args) == 1 else None
+                added = Lin({f"len({norm(a)})": 1}) if a is not None else None
+            out.append((e, e.call.func.value, added))
+        elif e.kind == "aug" and isinstance(e.raw, ast.AugAssign) and astq.is_self_attr(e.raw.target, "buffer"):
+            out.append((e, ast.parse("self.buffer", mode="eval").body, Lin({f"len({norm(e.call.value)})": 1})))  # type: ignore[union-attr]
+        elif e.kind == "store" and isinstance(e.call, ast.Assign) and isinstance(e.call.targets[0], ast.Subscript) and _buffer_term(e.call.targets[0].value):
+            out.append((e, e.call.targets[0].value, Lin({f"len({norm(e.call.value)})": 1})))
+    return out
+
+
+def _r101(ctx: Ctx, dec: ClassInfo) -> None:
+    repo = ctx.repo
+    LIMIT = "self.max_form_memory_size"
+    roots = roots_of(repo, dec, both(_not_dunder, mentions({"buffer", "max_form_memory_size", RETL})))
+    sites: dict[int, tuple[FuncInfo, ast.AST, list[tuple[bool, str]]]] = {}
+    exceeded: list[tuple[FuncInfo, Path]] = []
+    for name, nf in sorted(roots.items()):
+        if name == "__init__":
+            continue
+        touches = any((isinstance(x, ast.Attribute) and x.attr == "buffer") for x in ast.walk(nf.node))
+        if not touches:
+            continue
+        paths = Sym(nf, repo=repo).paths()
+        for p in paths:
+            if exceed_conds(p, LIMIT):
+                exceeded.append((nf.orig, p))
+            for e, bterm, added in _growths(p):
+                conds = p.cset(e.ncond)
+                if added is None:
+                    ok, fact = False, "growth by an unknown amount"
+                elif _limit_skipped(conds, LIMIT):
+                    ok, fact = True, "limit is None on this path"
+                else:
+                    total = Lin({f"len({norm(bterm)})": 1}) + added
+                    ok = implies_le(conds, total, Lin({LIMIT: 1}))
+                    fact = f"`{total.key()}` <= max_form_memory_size guaranteed: {ok}" + ("" if ok else f" on path {p.describe()[:200]}")
+                sites.setdefault(id(e.raw), (nf.orig, e.raw, []))[2].append((ok, fact))
+            # rebinding the attribute to something longer
+            cur = p.env.get("self.buffer")
+            shrinks = cur is not None and ((isinstance(cur, ast.Subscript) and _buffer_term(cur.value)) or (isinstance(cur, ast.Call) and dotted(cur.func) in ("bytearray", "bytes") and not cur.args and not cur.keywords))
+            if cur is not None and not shrinks and not (isinstance(cur, ast.Name) and cur.id.startswith("self.buffer\u00b7")) and p.outcome in ("return", "fall"):
+                rebinds = [s for s in p.steps if isinstance(s.ast, (ast.Assign, ast.AnnAssign)) and any(astq.is_self_attr(t_, "buffer") for t_ in (s.ast.targets if isinstance(s.ast, ast.Assign) else [s.ast.target]))]
+                for s in rebinds:
+                    sites.setdefault(id(s.ast), (nf.orig, s.ast, []))[2].append((False, f"buffer rebound to `{norm(cur)[:60]}`"))
+    ctx.floor("R10.1", "buffer growth sites", len(sites), 1)
+    for sid, (fi, raw, facts) in sites.items():
         ctx.saw(fi)
-        f = F(fi)
-        gn = f.cfg.node_of(g)
-        cmps = [(t, _exceeds_edge(f, t, {"max_form_memory_size"})) for t in f.tests()]
-        cmps = [(t, r) for t, r in cmps if r is not None]
-        ok = False
-        fact = "no size comparison against max_form_memory_size in this function"
-        if len(cmps) == 1:
-            t, (bounded, exc_label) = cmps[0]
-            ok_label = "F" if exc_label == "T" else "T"
-            shape = isinstance(bounded, ast.BinOp) and isinstance(bounded.op, ast.Add) and {norm(bounded.left), norm(bounded.right)} == {"len(self.buffer)", "len(data)"}
-            avoid = [(t, ok_label)] + _skip_edges(f, {"max_form_memory_size"})
-            bypass = gn.id in f.cfg.reach(avoid_edges=avoid)
-            raises = _raises_retl(f.cfg, t, exc_label)
-            arg_ok = isinstance(g, ast.Call) and g.func.attr == "extend" and len(g.args) == 1 and astq.is_name(g.args[0], "data")  # type: ignore[attr-defined]
-            ok = shape and not bypass and raises and arg_ok
-            fact = f"bounded quantity `{norm(bounded)}` (len(buffer)+len(data): {shape}); growth reachable without passing the test: {bypass}; exceeded edge raises RequestEntityTooLarge: {raises}; grows by exactly `data`: {arg_ok}"
-            if bypass:
-                fact += " via " + f.cfg.fmt_path(f.cfg.path(f.cfg.entry, gn, avoid_edges=avoid) or [])
-        ctx.ob("R10.1", f"{fi.qualname}: buffer growth is bounded", ok, f"`{norm(g)}`: {fact}", fi, g, f"growth {norm(g)}")
+        ok = all(f[0] for f in facts)
+        why = "; ".join(sorted({f[1] for f in facts}))
+        ctx.ob("R10.1", f"{fi.qualname}: buffer growth is bounded", ok, f"`{norm(raw)}` on {len(facts)} path(s): {why}", fi, raw, f"growth {norm(raw)}")
+    bad = [(fi, p) for fi, p in exceeded if not raised_retl(p) or _growths(p)]
+    where = exceeded[0][0] if exceeded else dec.methods.get("receive_data")
+    ctx.ob("R10.1", "a comparison with max_form_memory_size taken on its exceeded side raises RequestEntityTooLarge", bool(exceeded) and not bad,
+           "; ".join(f"{fi.qualname}: {p.describe()[:200]}" for fi, p in bad[:3]) or f"{len(exceeded)} exceeded path(s), each raises RequestEntityTooLarge without growing the buffer", where, where.node if where else None, "buffer size test raises")
     outside = []
     for fi in repo.all_functions():
         if fi.cls is dec or fi.module.name not in ("werkzeug.formparser", "werkzeug.sansio.multipart"):
             continue
         for n in walk_no_nested(fi.node):
-            if isinstance(n, ast.Call) and isinstance(n.func, ast.Attribute) and isinstance(n.func.value, ast.Attribute) and n.func.value.attr == "buffer" and n.func.attr in ("extend", "append"):
+            if isinstance(n, ast.Call) and isinstance(n.func, ast.Attribute) and isinstance(n.func.value, ast.Attribute) and n.func.value.attr == "buffer" and n.func.attr in GROW:
+                outside.append((fi, n))
+            if isinstance(n, ast.AugAssign) and isinstance(n.target, ast.Attribute) and n.target.attr == "buffer" and not (fi.cls is not None and fi.cls is not dec and astq.is_self_attr(n.target)):
                 outside.append((fi, n))
     ctx.ob("R10.1", "no code outside the decoder grows its buffer", not outside, f"{[x.fq for x, _ in outside]}", dec.fq, None, "buffer writers outside")
 
-    # ---------------- R10.2 -------------------------------------------
+
+# ---------------------------------------------------------------------
+# R10.2
+
+
+def _attr_writers(cls: ClassInfo, attr: str) -> dict[str, list[ast.AST]]:
+    out: dict[str, list[ast.AST]] = {}
+    for name, fi in cls.methods.items():
+        sn = fi.params[0] if fi.params else "self"
+        for n in walk_no_nested(fi.node):
+            if isinstance(n, (ast.Assign, ast.AugAssign, ast.AnnAssign)):
+                tg = n.targets if isinstance(n, ast.Assign) else [n.target]
+                flat = [y for x in tg for y in (x.elts if isinstance(x, (ast.Tuple, ast.List)) else [x])]
+                if any(astq.is_self_attr(t_, attr, sn) for t_ in flat):
+                    out.setdefault(name, []).append(n)
+    return out
+
+
+def _constructs_part(node: ast.AST) -> bool:
+    return any(isinstance(c, ast.Call) and (dotted(c.func) or "").rsplit(".", 1)[-1] in ("Field", "File") for c in ast.walk(node))
+
+
+def _r102(ctx: Ctx, dec: ClassInfo) -> None:
+    repo = ctx.repo
     ne = dec.methods.get("next_event")
     if ne is None:
         raise AnalysisError("MultipartDecoder.next_event missing")
     ctx.saw(ne)
-    f = F(ne)
-    cfg = f.cfg
-    cons = [c for c in astq.calls(ne.node) if dotted(c.func) in ("Field", "File")]
-    ctx.floor("R10.2", "Field/File constructions", len(cons), 2)
-    incs = [n for n in cfg.nodes if isinstance(n.ast, ast.AugAssign) and astq.is_self_attr(n.ast.target, "_parts_decoded") and isinstance(n.ast.op, ast.Add) and norm(n.ast.value) == "1"]
-    pt = [(t, _exceeds_edge(f, t, {"max_parts"})) for t in f.tests()]
-    pt = [(t, r) for t, r in pt if r is not None and norm(r[0]) == "self._parts_decoded"]
-    skips = _skip_edges(f, {"max_parts"})
-    for c in cons:
-        cn = cfg.node_of(c)
-        ok = False
-        fact = f"increments: {len(incs)}, tests: {len(pt)}"
-        if len(incs) == 1 and len(pt) == 1:
-            t, (_, exc_label) = pt[0]
-            passes_inc = cfg.all_paths_pass(cn, [cfg.exit], incs)
-            r = cfg.reach(incs[0], avoid_nodes=[t], avoid_edges=skips)
-            passes_test = cfg.exit.id not in r
-            raises = _raises_retl(cfg, t, exc_label)
-            ok = passes_inc and passes_test and raises
-            fact = f"every path to the exit passes the increment: {passes_inc}; then the `{norm(t.ast)}` test (unless the limit is None): {passes_test}; its exceeded edge raises: {raises}"
-        ctx.ob("R10.2", f"`{norm(c.func)}(...)` event is counted and bounded", ok, fact, ne, c, f"part event {norm(c.func)}")
-    pd_writes = _attr_writes(dec, "_parts_decoded")
-    ctx.ob("R10.2", "_parts_decoded written only as 0 in __init__ and += 1 in next_event", sorted((x.name, norm(n)) for n, x in pd_writes) == [("__init__", "self._parts_decoded = 0"), ("next_event", "self._parts_decoded += 1")], f"{[(x.name, norm(n)) for n, x in pd_writes]}", ne, ne.node, "_parts_decoded writers")
+    COUNTER, LIMIT = "self._parts_decoded", "self.max_parts"
+    want = both(_not_dunder, mentions({"_parts_decoded", "max_parts", "Field", "File", RETL}))
+    # the methods in which a part event is built: next_event itself, or - when next_event dispatches through a table or by
+    # name - the methods it reaches that way (they are entry points of their own: nothing calls them by a static name)
+    roots = roots_of(repo, dec, want)
+    builders = {name: nf for name, nf in roots.items() if name != "__init__" and _constructs_part(nf.node)}
+    if not builders:
+        raise AnalysisError("MultipartDecoder: no method that constructs a Field / File event was found (slot)")
+    from ._c09_helpers import _LIN_OF_KEY
 
-    # ---------------- R10.3 -------------------------------------------
-    mp = repo.cls("formparser.MultiPartParser")
+    allpaths: list[tuple[NFunc, Path]] = []
+    for name, nf in sorted(builders.items()):
+        for h, why in nf.refused:
+            if mentions({"_parts_decoded", "max_parts", "Field", "File"})(h):
+                raise AnalysisError(f"{name}: helper {h.name} cannot be expanded ({why})")
+        ctx.saw(nf.orig)
+        allpaths += [(nf, p) for p in Sym(nf, repo=repo).paths()]
+    # the part counter: the attribute that a comparison with max_parts bounds (whatever it is called)
+    cands: set[str] = set()
+    for _, p in allpaths:
+        for k, _, _ in p.conds:
+            g = _LIN_OF_KEY.get(k) if k.startswith("GE0: ") else None
+            if g is not None and LIMIT in g.terms:
+                cands |= {tm.split("\u00b7")[0] for tm in g.terms if tm != LIMIT and tm.startswith("self.") and "(" not in tm}
+    if len(cands) == 1:
+        COUNTER = next(iter(cands))
+    cattr = COUNTER.split(".", 1)[1]
+    C0 = Lin({COUNTER: 1})
+    per: dict[str, list[tuple[bool, str]]] = {}
+    raws: dict[str, tuple[FuncInfo, ast.AST]] = {}
+    stray = []
+    exceeded = [p for _, p in allpaths if exceed_conds(p, LIMIT)]
+    for nf, p in allpaths:
+        cons = [e for e in p.events if e.kind == "call" and isinstance(e.raw, ast.Call) and (dotted(e.raw.func) or "").rsplit(".", 1)[-1] in ("Field", "File")]
+        if p.outcome not in ("return", "fall"):
+            continue
+        cur = lin(p.env[COUNTER]) if COUNTER in p.env else C0
+        delta = (cur - C0) if cur is not None else None
+        moved = delta.const if delta is not None and delta.is_const() else None
+        if not cons:
+            if moved != 0:
+                stray.append(f"{p.describe()[:160]}: counter moves by {delta.key() if delta is not None else '?'} without a part")
+            continue
+        conds = p.cset()
+        counted = moved == len(cons)
+        bounded = _limit_skipped(conds, LIMIT) or (cur is not None and implies_le(conds, cur, Lin({LIMIT: 1})))
+        for e in cons:
+            nm = (dotted(e.raw.func) or "").rsplit(".", 1)[-1]  # type: ignore[union-attr]
+            raws.setdefault(nm, (nf.orig, e.raw))
+            fact = f"counter moves by {delta.key() if delta is not None else '?'} (one per part: {counted}); counter <= max_parts at the exit or limit None: {bounded}"
+            if not (counted and bounded):
+                fact += f" on path {p.describe()[:220]}"
+            per.setdefault(nm, []).append((counted and bounded, fact))
+    ctx.floor("R10.2", "Field/File constructions", len(per), 2)
+    for nm, facts in sorted(per.items()):
+        ok = all(f[0] for f in facts)
+        ctx.ob("R10.2", f"`{nm}(...)` event is counted and bounded", ok, "; ".join(sorted({f[1] for f in facts if not f[0]})[:2]) or f"{len(facts)} path(s): {facts[0][1]}", ne, raws[nm][1], f"part event {nm}")
+    bad_exc = [p for p in exceeded if not raised_retl(p)]
+    ctx.ob("R10.2", "a comparison with max_parts taken on its exceeded side raises RequestEntityTooLarge", bool(exceeded) and not bad_exc, "; ".join(p.describe()[:200] for p in bad_exc[:3]) or f"{len(exceeded)} exceeded path(s), each raises RequestEntityTooLarge", ne, ne.node, "parts test raises")
+    writers = _attr_writers(dec, cattr)
+    accounted = set(builders) | {h.name for nf in builders.values() for h in nf.inlined if h.cls is dec}
+    init_paths = [p for p in Sym(normalise(repo, dec.methods["__init__"], _not_dunder), repo=repo).paths() if p.outcome in ("return", "fall")] if "__init__" in dec.methods else []
+    init_ok = bool(init_paths) and all(isinstance(p.env.get(COUNTER), ast.Constant) and p.env[COUNTER].value == 0 for p in init_paths)  # type: ignore[union-attr]
+    others = sorted(set(writers) - accounted - {"__init__"})
+    ctx.ob("R10.2", "_parts_decoded written only as 0 in __init__ and += 1 in next_event", init_ok and not others and not stray,
+           f"{[(k, norm(w)) for k, ws in sorted(writers.items()) for w in ws]}; methods that build part events (with the helpers expanded into them): {sorted(accounted)}" + (f"; {'; '.join(stray[:2])}" if stray else ""), ne, ne.node, "_parts_decoded writers")
+
+
+# ---------------------------------------------------------------------
+# R10.3
+
+
+def _mentions_term(e: ast.AST, text: str, skip_len: bool = True) -> bool:
+    """does expression e contain the term (by text) outside a len(...) call?"""
+    if norm(e) == text:
+        return True
+    if skip_len and isinstance(e, ast.Call) and dotted(e.func) in ("len", "isinstance", "bool"):
+        return False
+    return any(_mentions_term(ch, text, skip_len) for ch in ast.iter_child_nodes(e))
+
+
+class _Subst(ast.NodeTransformer):
+    """replaces local names and self attributes by the values a path left in them."""
+
+    def __init__(self, env: dict[str, ast.AST], selfname: str):
+        self.env = env
+        self.selfname = selfname
+
+    def visit_Name(self, n: ast.Name):  # noqa: N802
+        if n.id in self.env:
+            return ast.parse(ast.unparse(self.env[n.id]), mode="eval").body
+        return n
+
+    def visit_Attribute(self, n: ast.Attribute):  # noqa: N802
+        if isinstance(n.value, ast.Name) and f"{n.value.id}.{n.attr}" in self.env:  # self.attr, or a field of a local record
+            return ast.parse(ast.unparse(self.env[f"{n.value.id}.{n.attr}"]), mode="eval").body
+        self.generic_visit(n)
+        return n
+
+
+def _key_expr(key: str) -> ast.AST | None:
+    """the condition a canonical key stands for, as an expression over the terms it was built from."""
+    from ._c09_helpers import _LIN_OF_KEY
+
+    f = _LIN_OF_KEY.get(key)
+    try:
+        if f is not None:
+            txt = " + ".join(f"({c}) * ({tm})" for tm, c in sorted(f.terms.items())) or "0"
+            return ast.parse(f"{txt} + ({f.const}) {'>=' if key.startswith('GE0: ') else '=='} 0", mode="eval").body
+        return ast.parse(key, mode="eval").body
+    except SyntaxError:
+        return None
+
+
+def _value_after(p: Path, term: str, selfname: str, module: t.Any) -> ast.AST | None:
+    """what a term over the state at the start of a round (a local, a field of a record, an element of a state tuple)
+    denotes in the state path p leaves behind."""
+    try:
+        e = ast.parse(term, mode="eval").body
+    except SyntaxError:
+        return None
+    return fold_access(_Subst(p.env, selfname).visit(e), module)
+
+
+def _atom_after(p: Path, key: str, selfname: str, module: t.Any = None) -> bool | None:
+    """truth value that condition `key` (over the state at the start of a round) has in the state path p leaves behind."""
+    e = _key_expr(key)
+    if e is None:
+        return None
+    c = canon_atom(fold_access(_Subst(p.env, selfname).visit(e), module))
+    if isinstance(c, bool):
+        return c
+    v = p.val(c[0])
+    return None if v is None else (v == c[1])
+
+
+def _r103(ctx: Ctx, mp: ClassInfo) -> None:
+    repo = ctx.repo
     pa = mp.methods.get("parse")
     if pa is None:
         raise AnalysisError("MultiPartParser.parse missing")
     ctx.saw(pa)
-    f = F(pa)
-    cfg = f.cfg
-    dtests = [t for t in f.tests() if isinstance(t.ast, ast.Call) and dotted(t.ast.func) == "isinstance" and len(t.ast.args) == 2 and norm(t.ast.args[0]) == "event" and norm(t.ast.args[1]) == "Data"]
-    if len(dtests) != 1:
-        raise AnalysisError("MultiPartParser.parse: `isinstance(event, Data)` branch not found (slot)")
-    dt = dtests[0]
-    writes = [c for c in astq.calls(pa.node) if any(any(norm(x) == "event.data" for x in ast.walk(a)) for a in c.args) and dotted(c.func) != "len" and not any(isinstance(a, ast.Call) and dotted(a.func) == "len" for a in c.args)]
-    # a self-method that receives event.data and performs the size accounting is a helper, not a write
-    helpers = {}
-    for c in list(writes):
-        if isinstance(c.func, ast.Attribute) and astq.is_self_attr(c.func) and c.func.attr in mp.methods:
-            hs = _accounting_helper(ctx, mp.methods[c.func.attr])
-            if hs is not None:
-                helpers[id(c)] = (c, hs)
-                writes.remove(c)
-    ctx.floor("R10.3", "writes of event.data", len(writes), 1)
-    ft = [(t, _exceeds_edge(f, t, {"max_form_memory_size"})) for t in f.tests()]
-    ft = [(t, r) for t, r in ft if r is not None and norm(r[0]) == "field_size"]
-    skips = _skip_edges(f, {"max_form_memory_size"}, ("field_size",))
-    finc = [n for n in cfg.nodes if isinstance(n.ast, ast.AugAssign) and astq.is_name(n.ast.target, "field_size") and isinstance(n.ast.op, ast.Add) and norm(n.ast.value) == "len(event.data)"]
-    for w in writes:
-        wn = cfg.node_of(w)
-        start = cfg.succ(dt, "T")
-        ok = False
-        if len(ft) == 1 and len(finc) == 1:
-            t, (_, exc_label) = ft[0]
-            r: set[int] = set()
-            for s_ in start:
-                r |= cfg.reach(s_, avoid_nodes=[t, dt], avoid_edges=skips)
-            bypass = wn.id in r
-            inc_first = all(t.id not in cfg.reach(s_, avoid_nodes=[finc[0], dt], avoid_edges=skips) for s_ in start)
-            raises = _raises_retl(cfg, t, exc_label)
-            ok = (not bypass) and inc_first and raises
-            fact = f"inline check: write reachable in the Data branch without the size test (limit set, field part): {bypass}; size accumulated before the test: {inc_first}; exceeded edge raises: {raises}"
-        elif helpers and not ft:
-            # field_size = self._helper(field_size, event.data) dominates the write inside the Data branch
-            facts = []
-            for c, hs in helpers.values():
-                hn = cfg.node_of(c)
-                st = astq.stmt_of(pa, c)
-                assigns_back = isinstance(st, ast.Assign) and len(st.targets) == 1 and astq.is_name(st.targets[0], "field_size") and st.value is c
-                passes_size = len(c.args) >= 2 and norm(c.args[0]) == "field_size" and norm(c.args[1]) == "event.data"
-                r = set()
-                for s_ in start:
-                    if s_ is not hn:
-                        r |= cfg.reach(s_, avoid_nodes=[hn, dt])
-                dom = wn.id not in r
-                ok = ok or (assigns_back and passes_size and dom)
-                facts.append(f"helper {c.func.attr}: {hs}; result assigned back to field_size: {assigns_back}; called with (field_size, event.data): {passes_size}; precedes the write on every path of the Data branch: {dom}")  # type: ignore[attr-defined]
-            fact = "; ".join(facts)
-        else:
-            fact = f"size tests on field_size: {len(ft)}, increments: {len(finc)}, accounting helpers: {len(helpers)}"
-        ctx.ob("R10.3", "the write of field data is bounded by the accumulated field size", ok, f"`{norm(w)}`: {fact}", pa, w, f"field write {norm(w)}")
-    fdefs = astq.assigns_to(pa.node, "field_size")
-    field_t = [t for t in f.tests() if isinstance(t.ast, ast.Call) and dotted(t.ast.func) == "isinstance" and norm(t.ast.args[0]) == "event" and norm(t.ast.args[1]) == "Field"]
-    file_t = [t for t in f.tests() if isinstance(t.ast, ast.Call) and dotted(t.ast.func) == "isinstance" and norm(t.ast.args[0]) == "event" and norm(t.ast.args[1]) == "File"]
-    z = [s for s, v in fdefs if v is not None and norm(v) == "0"]
-    nn_ = [s for s, v in fdefs if v is not None and norm(v) == "None" and cfg.node_of(s) is not None and cfg.guards(cfg.node_of(s))]
-    ok = len(field_t) == 1 and len(file_t) == 1 and len(z) == 1 and cfg.edge_dominates(field_t[0], "T", cfg.node_of(z[0])) and any(cfg.edge_dominates(file_t[0], "T", cfg.node_of(s)) for s in nn_)
-    ctx.ob("R10.3", "field_size is reset to 0 at every Field and disabled (None) at every File", ok, f"assignments {[norm(s) for s, _ in fdefs]}", pa, pa.node, "field_size resets")
-    helper_assigns = {id(astq.stmt_of(pa, c)) for c, _ in helpers.values()}
-    other = [s for s, v in fdefs if not (v is not None and norm(v) in ("0", "None")) and not (isinstance(s, ast.AugAssign) and norm(s.value) == "len(event.data)") and id(s) not in helper_assigns]
-    ctx.ob("R10.3", "field_size changes only by reset or by the accumulated length of event.data", not other, f"other writes: {[norm(s) for s in other]}", pa, pa.node, "field_size writers")
+    LIMIT = "self.max_form_memory_size"
+    nf = normalise(repo, pa, _not_dunder)
+    sn = nf.selfname or "self"
+    sym = Sym(nf, repo=repo)
 
-    # ---------------- R10.4 -------------------------------------------
-    fp = repo.cls("formparser.FormDataParser")
+    def mentions_next_event(e: ast.AST) -> bool:
+        return any(isinstance(x, ast.Attribute) and x.attr == "next_event" for x in ast.walk(e))
+
+    def event_generator(call: ast.AST) -> bool:
+        if not isinstance(call, ast.Call):
+            return False
+        f = call.func
+        h = None
+        if isinstance(f, ast.Attribute) and isinstance(f.value, ast.Name) and f.value.id == sn:
+            h = mp.methods.get(f.attr)
+        elif isinstance(f, ast.Name):
+            h = pa.module.functions.get(f.id)
+        return h is not None and any(isinstance(x, (ast.Yield, ast.YieldFrom)) for x in ast.walk(h.node)) and mentions_next_event(h.node)
+
+    # a round = from taking one event to taking the next: the event is the result of a next_event() call, or the target of
+    # a loop over something that produces the decoder's events (iter(decoder.next_event, ...), a generator calling it)
+    call_starts = [n for n in nf.cfg.nodes if n.kind in ("stmt", "test") and n.ast is not None and any(isinstance(c.func, ast.Attribute) and c.func.attr == "next_event" for c in astq.calls(n.ast))]
+    loop_starts = [n for n in nf.cfg.nodes if n.kind == "loop" and isinstance(n.ast, (ast.For, ast.AsyncFor)) and not any(n is c for c in call_starts) and (mentions_next_event(n.ast.iter) or event_generator(n.ast.iter))]
+    starts = call_starts + loop_starts
+    if not starts:
+        raise AnalysisError("MultiPartParser.parse: no call of next_event(), no loop over the decoder's events (slot)")
+    start_ids = {n.id for n in starts}
+    runs: list[tuple[Path, str]] = []
+    for s in starts:
+        for p in sym.paths(start=s, stop=lambda n: n.id in start_ids, env0=invariant_env(nf, s)):
+            if s.kind == "loop":
+                ev = next((e for e in p.events if e.kind == "iter" and e.node is s), None)
+            else:
+                ev = next((e for e in p.events if e.k is not None and callee_last(e) == "next_event"), None)
+            if ev is not None:
+                runs.append((p, symname(ev.k)))
+
+    # which event class a path is about: isinstance conditions narrow the set of concrete event classes
+    evmod = repo.module("sansio.multipart")
+    base = evmod.classes.get("Event")
+    universe = {c.name for c in evmod.classes.values() if base is not None and c is not base and any(k.fq == base.fq for k in repo.mro(c)[1:])}
+    if not {"Field", "File", "Data"} <= universe:
+        raise AnalysisError("sansio.multipart: event classes Field / File / Data not found (slot)")
+
+    def covered(names: list[str]) -> set[str]:
+        out = set()
+        for u in universe:
+            anc = {k.name for k in repo.mro(evmod.classes[u])}
+            if any(nm.rsplit(".", 1)[-1] in anc for nm in names):
+                out.add(u)
+        return out
+
+    import re as _re
+
+    exact_pats = [_re.compile(r"^(?:type\((?P<s>.+?)\)|(?P<s2>.+?)\.__class__) (?:is|==) (?P<c>[\w.]+)$"), _re.compile(r"^(?P<c>[\w.]+) == (?:type\((?P<s>.+?)\)|(?P<s2>.+?)\.__class__)$"),
+                  _re.compile(r"^(?:type\((?P<s>.+?)\)|(?P<s2>.+?)\.__class__) in [\(\[\{](?P<c>[\w., ]+)[\)\]\}]$")]
+
+    def possible(p: Path, evs: str) -> set[str]:
+        """concrete event classes the event of this round can still have, given the path's isinstance / type() conditions."""
+        poss = set(universe)
+        for k, v, _ in p.conds:
+            c = sym._classes_of(k)
+            if c is not None and c[0] == evs:
+                cov = covered(c[1])
+                poss = (poss & cov) if v else (poss - cov)
+                continue
+            for pat in exact_pats:
+                m = pat.match(k)
+                if m and (m.group("s") or m.group("s2")) == evs:
+                    exact = {x.strip().rsplit(".", 1)[-1] for x in m.group("c").split(",") if x.strip()} & universe
+                    poss = (poss & exact) if v else (poss - exact)
+                    break
+        return poss
+
+    from ._c09_helpers import _LIN_OF_KEY
+
+    counters: set[str] = set()
+    for p, evs in runs:
+        dlen = f"len({evs}.data)"
+        for k, v, _ in p.conds:
+            g = _LIN_OF_KEY.get(k) if k.startswith("GE0: ") else None
+            if g is None or LIMIT not in g.terms or dlen not in g.terms:
+                continue
+            for tm in g.terms:
+                if tm not in (LIMIT, dlen) and not tm.startswith("len(") and "\u03a3" not in tm:
+                    counters.add(tm)
+
+    kinds: list[tuple[Path, str, str]] = []
+    for p, evs in runs:
+        poss = possible(p, evs)
+        kind = "file" if poss and poss <= {"File"} else "field" if poss and poss <= {"Field"} else "data" if poss and poss <= {"Data"} else ("field?" if "Field" in poss and not poss & {"Data", "File"} else "other")
+        kinds.append((p, evs, kind))
+    explicit_field = [p for p, _, k in kinds if k == "field" and p.outcome != "raise"]
+    # no explicit test for Field anywhere: the rounds left over once Data and File are excluded are the ones that handle it
+    fieldish = explicit_field or [p for p, _, k in kinds if k == "field?" and p.outcome != "raise"]
+    filish = [p for p, _, k in kinds if k == "file" and p.outcome != "raise"]
+
+    skip_cache: dict[tuple[str, bool], bool] = {}
+
+    def file_only(k: str, v: bool) -> bool:
+        """is the condition one that every File event establishes and every Field event refutes (so that a round that
+        meets it is handling the data of a file part)?"""
+        if (k, v) not in skip_cache:
+            ok = bool(filish) and bool(fieldish)
+            for fp in filish:
+                if _atom_after(fp, k, sn, pa.module) is not v:
+                    ok = False
+            for fp in fieldish:
+                if _atom_after(fp, k, sn, pa.module) is not (not v):
+                    ok = False
+            skip_cache[(k, v)] = ok
+        return skip_cache[(k, v)]
+
+    def state_atom(k: str, evs: str) -> bool:
+        return not k.startswith(("EXC@", "ITER@")) and "\u03a3" not in k and LIMIT not in k
+
+    writes: dict[int, tuple[ast.AST, list[tuple[bool, str]]]] = {}
+    bad_keep, bad_field, bad_other, bad_exc = [], [], [], []
+    n_guarded = n_exc = 0
+    used_skips: set[str] = set()
+    for p, evs, kind in kinds:
+        data = f"{evs}.data"
+        dlen = Lin({f"len({data})": 1})
+        for e in p.events:
+            if e.kind != "call" or not isinstance(e.call, ast.Call) or (dotted(e.call.func) in ("len", "isinstance", "bool")):
+                continue
+            vals = list(e.call.args) + [k.value for k in e.call.keywords]
+            if not any(_mentions_term(a, data) for a in vals):
+                continue
+            conds = p.cset(e.ncond)
+            if _limit_skipped(conds, LIMIT):
+                ok, fact = True, "limit None"
+            elif any(implies_le(conds, Lin({c: 1}) + dlen, Lin({LIMIT: 1})) for c in counters):
+                ok, fact = True, "accumulated size + len(event.data) <= max_form_memory_size guaranteed"
+            else:
+                skips = [(k, v) for k, v in sorted(conds) if state_atom(k, evs) and file_only(k, v)]
+                ok = bool(skips)
+                if ok:
+                    used_skips.add(f"{'' if skips[0][1] else 'not '}{skips[0][0]}")
+                    fact = f"file part (`{'' if skips[0][1] else 'not '}{skips[0][0]}`: established by every File event, refuted by every Field event)"
+                else:
+                    fact = f"no bound: neither the limit is None, nor a file part is known, nor accumulated size + len(event.data) <= max_form_memory_size (counter candidates {sorted(counters)}) on path {p.describe()[:240]}"
+            writes.setdefault(id(e.raw), (e.raw, []))[1].append((ok, fact))
+        if exceed_conds(p, LIMIT):
+            n_exc += 1
+            if not raised_retl(p):
+                bad_exc.append(p.describe()[:200])
+        if p.outcome == "raise":
+            continue
+        conds = p.cset()
+        for c in sorted(counters):
+            cur = _value_after(p, c, sn, pa.module)
+            if cur is not None and norm(cur) == c:
+                cur = None
+            curl = lin(cur) if cur is not None else Lin({c: 1})
+            unchanged = cur is None or (curl is not None and curl.key() == Lin({c: 1}).key())
+            summed = curl is not None and curl.key() == (Lin({c: 1}) + dlen).key()
+            is_zero = isinstance(cur, ast.Constant) and cur.value == 0 and not isinstance(cur.value, bool)
+            if implies_le(conds, Lin({c: 1}) + dlen, Lin({LIMIT: 1})):
+                n_guarded += 1
+                if not summed:
+                    bad_keep.append(f"{p.describe()[:200]}: after the test `{c}` is `{norm(cur) if cur is not None else c}`, not the accumulated size")
+            if any(p is q for q in fieldish):
+                if not is_zero:
+                    bad_field.append(f"at a Field event `{c}` becomes `{norm(cur) if cur is not None else c}`")
+            elif kind == "file":
+                pass  # how a file part switches the accounting off is checked where the data is handed on
+            elif not (unchanged or summed):
+                bad_other.append(f"{p.describe()[:160]}: `{c}` becomes `{norm(cur)}`")
+    if not writes:
+        raise AnalysisError("MultiPartParser.parse: no place where the data of a Data event is handed on was found in the rounds of the event loop (slot)")
+    ctx.floor("R10.3", "writes of event.data", len(writes), 1)
+    for sid, (raw, facts) in writes.items():
+        ok = all(f[0] for f in facts)
+        ctx.ob("R10.3", "the write of field data is bounded by the accumulated field size", ok, f"`{norm(raw)}` on {len(facts)} path(s): " + "; ".join(sorted({f[1] for f in facts if not f[0]})[:2] or sorted({f[1] for f in facts})), pa, raw, f"field write {norm(raw)}")
+    if counters and (not fieldish or not filish):
+        raise AnalysisError("MultiPartParser.parse: the rounds that handle a Field / a File event were not recognised (slot)")
+    ctx.ob("R10.3", "field_size is reset to 0 at every Field and disabled (None) at every File", bool(counters) and not bad_field and bool(used_skips),
+           "; ".join(sorted(set(bad_field))[:3]) or (f"counter {sorted(counters)}: 0 on {len(fieldish)} Field path(s); {len(filish)} File path(s) establish {sorted(used_skips)}, under which alone the size test is skipped" if used_skips else f"counter {sorted(counters)}: no condition set by File events (and cleared by Field events) under which the size test is skipped"), pa, pa.node, "field_size resets")
+    ctx.ob("R10.3", "field_size changes only by reset or by the accumulated length of event.data", bool(counters) and not bad_keep and not bad_other and n_guarded >= 1, "; ".join(sorted(set(bad_keep + bad_other))[:3]) or f"{n_guarded} guarded path(s) keep the counter at the accumulated size; no other change", pa, pa.node, "field_size writers")
+    ctx.ob("R10.3", "a comparison with max_form_memory_size taken on its exceeded side raises RequestEntityTooLarge", n_exc >= 1 and not bad_exc, "; ".join(bad_exc[:3]) or f"{n_exc} exceeded path(s), each raises RequestEntityTooLarge", pa, pa.node, "field size test raises")
+
+
+# ---------------------------------------------------------------------
+# R10.4
+
+
+def _r104(ctx: Ctx, fp: ClassInfo) -> None:
+    repo = ctx.repo
     pu = fp.methods.get("_parse_urlencoded")
     if pu is None:
         raise AnalysisError("FormDataParser._parse_urlencoded missing")
     ctx.saw(pu)
-    f = F(pu)
-    cfg = f.cfg
-    reads = [c for c in astq.method_calls(pu.node, "read") if not c.args and astq.is_name(c.func.value, "stream")]  # type: ignore[attr-defined]
-    bounded_reads = [c for c in astq.method_calls(pu.node, "read") if c.args and astq.is_name(c.func.value, "stream")]  # type: ignore[attr-defined]
-    ctx.floor("R10.4", "reads of the urlencoded body", len(reads) + len(bounded_reads), 1)
-    ut = [(t, _exceeds_edge(f, t, {"max_form_memory_size"})) for t in f.tests()]
-    ut = [(t, r) for t, r in ut if r is not None]
-    skips = _skip_edges(f, {"max_form_memory_size"})
-    for rcall in reads:
-        rn = cfg.node_of(rcall)
-        if len(ut) != 1:
-            ctx.ob("R10.4", "unbounded read of the urlencoded body is preceded by a size bound", False, "no comparison against max_form_memory_size", pu, rcall, "urlencoded read bound")
-            continue
-        t, (bounded, exc_label) = ut[0]
-        raises = _raises_retl(cfg, t, exc_label)
-        after_exceeded = any(rn.id in cfg.reach(s_) for s_ in cfg.succ(t, exc_label))
-        ctx.ob("R10.4", "declared urlencoded length above max_form_memory_size is refused before reading", raises and norm(bounded) == "content_length" and not after_exceeded, f"test `{norm(t.ast)}`, exceeded edge raises: {raises}", pu, t.ast, "urlencoded declared length")
-        byp = rn.id in cfg.reach(avoid_nodes=[t], avoid_edges=skips)
-        fact = "every path to stream.read() with a limit configured passes the size comparison" if not byp else "stream.read() is reachable with a limit configured and no bound applied: " + cfg.fmt_path(cfg.path(cfg.entry, rn, avoid_nodes=[t], avoid_edges=skips) or [])
-        ctx.ob("R10.4", "unbounded stream.read() of the urlencoded body is dominated by a bound whenever a limit is configured", not byp, fact, pu, rcall, "urlencoded unbounded read when content_length is None")
-    input_stream_rule(ctx, "R10.4")
+    if len(pu.params) < 4:
+        raise AnalysisError("_parse_urlencoded: expected (self, stream, mimetype, content_length, options)")
+    STREAM, CLEN = pu.params[1], pu.params[3]
+    LIMIT = "self.max_form_memory_size"
+    nf = normalise(repo, pu, _not_dunder)
+    paths = Sym(nf, repo=repo).paths()
 
-    # ---------------- R10.5 -------------------------------------------
+    def reads(p: Path) -> list[Ev]:
+        return [e for e in p.events if e.kind == "call" and isinstance(e.call, ast.Call) and isinstance(e.call.func, ast.Attribute) and e.call.func.attr in ("read", "readall") and norm(e.call.func.value) == STREAM]
+
+    def unbounded(e: Ev) -> bool:
+        a = e.call.args  # type: ignore[union-attr]
+        return e.call.func.attr == "readall" or not a or (isinstance(a[0], ast.Constant) and a[0].value in (None, -1)) or (isinstance(a[0], ast.UnaryOp) and isinstance(a[0].op, ast.USub))  # type: ignore[union-attr]
+
+    all_reads = {id(e.raw): e.raw for p in paths for e in reads(p)}
+    ctx.floor("R10.4", "reads of the urlencoded body", len(all_reads), 1)
+    un_sites = {id(e.raw): e.raw for p in paths for e in reads(p) if unbounded(e)}
+    exceeded = [p for p in paths if exceed_conds(p, LIMIT)]
+    for sid, raw in un_sites.items():
+        bad_a = [p for p in exceeded if not raised_retl(p) or reads(p)]
+        declared = [p for p in exceeded if any(CLEN in k for k, _ in exceed_conds(p, LIMIT))]
+        ctx.ob("R10.4", "declared urlencoded length above max_form_memory_size is refused before reading", bool(declared) and not bad_a,
+               "; ".join(p.describe()[:200] for p in bad_a[:2]) or (f"{len(declared)} path(s) with `{CLEN}` above the limit, each raises RequestEntityTooLarge before any read" if declared else "no comparison of the declared length with max_form_memory_size"), pu, raw, "urlencoded declared length")
+        byp = []
+        for p in paths:
+            for e in reads(p):
+                if e.raw is not raw or not unbounded(e):
+                    continue
+                conds = p.cset(e.ncond)
+                if _limit_skipped(conds, LIMIT):
+                    continue
+                if any(implies_le(conds, Lin({tm: 1}), Lin({LIMIT: 1})) for tm in (CLEN,)):
+                    continue
+                byp.append(p)
+        fact = "every path to stream.read() with a limit configured passes the size comparison" if not byp else "stream.read() is reachable with a limit configured and no bound applied: " + byp[0].describe()[:240]
+        ctx.ob("R10.4", "unbounded stream.read() of the urlencoded body is dominated by a bound whenever a limit is configured", not byp, fact, pu, raw, "urlencoded unbounded read when content_length is None")
+
+
+# ---------------------------------------------------------------------
+# R10.5
+
+
+def _r105(ctx: Ctx) -> None:
+    repo = ctx.repo
     chain = [
-        ("wrappers.request.Request.make_form_data_parser", "form_data_parser_class", {"max_form_memory_size": "self.max_form_memory_size", "max_content_length": "self.max_content_length", "max_form_parts": "self.max_form_parts"}),
-        ("formparser.parse_form_data", "FormDataParser", {"max_form_memory_size": "max_form_memory_size", "max_content_length": "max_content_length", "max_form_parts": "max_form_parts"}),
-        ("formparser.FormDataParser.parse_from_environ", "get_input_stream", {"max_content_length": "self.max_content_length"}),
-        ("formparser.FormDataParser._parse_multipart", "MultiPartParser", {"max_form_memory_size": "self.max_form_memory_size", "max_form_parts": "self.max_form_parts"}),
-        ("formparser.MultiPartParser.parse", "MultipartDecoder", {"max_form_memory_size": "self.max_form_memory_size", "max_parts": "self.max_form_parts"}),
-        ("wrappers.request.Request.stream", "get_input_stream", {"max_content_length": "self.max_content_length"}),
+        ("wrappers.request.Request.make_form_data_parser", "form_data_parser_class", "formparser.FormDataParser.__init__", {"max_form_memory_size": "self.max_form_memory_size", "max_content_length": "self.max_content_length", "max_form_parts": "self.max_form_parts"}),
+        ("formparser.parse_form_data", "FormDataParser", "formparser.FormDataParser.__init__", {"max_form_memory_size": "max_form_memory_size", "max_content_length": "max_content_length", "max_form_parts": "max_form_parts"}),
+        ("formparser.FormDataParser.parse_from_environ", "get_input_stream", "wsgi.get_input_stream", {"max_content_length": "self.max_content_length"}),
+        ("formparser.FormDataParser._parse_multipart", "MultiPartParser", "formparser.MultiPartParser.__init__", {"max_form_memory_size": "self.max_form_memory_size", "max_form_parts": "self.max_form_parts"}),
+        ("formparser.MultiPartParser.parse", "MultipartDecoder", "sansio.multipart.MultipartDecoder.__init__", {"max_form_memory_size": "self.max_form_memory_size", "max_parts": "self.max_form_parts"}),
+        ("wrappers.request.Request.stream", "get_input_stream", "wsgi.get_input_stream", {"max_content_length": "self.max_content_length"}),
     ]
     nfw = 0
-    for fq, callee, kws in chain:
+    for fq, callee, sig_fq, kws in chain:
         fi = repo.func(fq)
         ctx.saw(fi)
-        ff = F(fi)
-        calls = astq.name_calls(fi.node, callee)
-        if len(calls) != 1:
-            ctx.ob("R10.5", f"{fq} calls {callee}", False, f"{len(calls)} call(s) found", fi, fi.node, f"{fq} -> {callee}")
+        sig = repo.func(sig_fq)
+        nf = normalise(repo, fi, lambda h: _not_dunder(h) and h.name != "get_content_length")
+        paths = Sym(nf, repo=repo).paths(max_paths=20000)
+        found: dict[int, list[dict[str, str | None]]] = {}
+        raws: dict[int, ast.AST] = {}
+        for p in paths:
+            for e in p.events:
+                if e.kind == "call" and callee in (callee_last(e), callee_last(e, True)) and isinstance(e.call, ast.Call):
+                    b = bind_call(e.call, sig, bound=sig.name == "__init__")
+                    if b is None:
+                        raise AnalysisError(f"{fq}: the arguments of `{norm(e.call)[:80]}` cannot be matched with the parameters of {callee} (slot)")
+                    found.setdefault(id(e.raw), []).append({k: (norm(v) if v is not None else None) for k, v in (b or {}).items()} if b is not None else {"?": None})
+                    raws[id(e.raw)] = e.raw
+        if not found:
+            ctx.ob("R10.5", f"{fq} calls {callee}", False, "0 call(s) found", fi, fi.node, f"{fq} -> {callee}")
             continue
         for k, v in kws.items():
             nfw += 1
-            got = astq.kwarg(calls[0], k)
-            gtxt = norm(ff.al.expand(got, ff.cfg.node_of(calls[0]))) if got is not None else None
-            ctx.ob("R10.5", f"{fi.qualname} forwards {k} to {callee}", gtxt == v, f"{k}={gtxt} (expected {v})", fi, calls[0], f"{fq} -> {callee}({k})")
+            gots = sorted({str(b.get(k)) for bs in found.values() for b in bs})
+            ok = gots == [v]
+            ctx.ob("R10.5", f"{fi.qualname} forwards {k} to {callee}", ok, f"{k}={gots} (expected {v}) at {len(found)} call site(s)", fi, next(iter(raws.values())), f"{fq} -> {callee}({k})")
     stores = [
         ("formparser.FormDataParser.__init__", ["max_form_memory_size", "max_content_length", "max_form_parts"]),
         ("formparser.MultiPartParser.__init__", ["max_form_memory_size", "max_form_parts"]),
@@ -337,127 +615,151 @@ def run(ctx: Ctx) -> None:
     for fq, names in stores:
         fi = repo.func(fq)
         ctx.saw(fi)
+        nf = normalise(repo, fi, _not_dunder)
+        paths = [p for p in Sym(nf, repo=repo).paths() if p.outcome in ("return", "fall")]
         for nm in names:
             nfw += 1
-            got = [norm(s.value) for s in walk_no_nested(fi.node) if isinstance(s, ast.Assign) and astq.is_self_attr(s.targets[0], nm)]
+            got = sorted({norm(p.env[f"self.{nm}"]) if f"self.{nm}" in p.env else "<not stored>" for p in paths})
             ctx.ob("R10.5", f"{fi.qualname} stores {nm}", got == [nm] and nm in fi.params, f"self.{nm} = {got}", fi, fi.node, f"{fq} stores {nm}")
     ctx.floor("R10.5", "forwarding edges", nfw, 18)
     req = repo.cls("wrappers.request.Request")
     defaults = {k: norm(req.attrs[k]) if k in req.attrs else None for k in ("max_content_length", "max_form_memory_size", "max_form_parts")}
     ctx.ob("R10.5", "Request defaults are None / 500000 / 1000", defaults == {"max_content_length": "None", "max_form_memory_size": "500000", "max_form_parts": "1000"}, f"{defaults}", req.fq, None, "request defaults")
 
-    # ---------------- R10.6 -------------------------------------------
-    scope = [dec.methods[m] for m in dec.methods] + [fp.methods[m] for m in fp.methods] + [mp.methods[m] for m in mp.methods] + [repo.func("formparser.parse_form_data"), repo.func("wsgi.get_input_stream"), repo.func("wrappers.request.Request.make_form_data_parser"), repo.func("wrappers.request.Request.stream")]
+
+# ---------------------------------------------------------------------
+# R10.6: non-interference, decided on paths: a configured limit may reach only guards and forwarding sinks
+
+
+_LIMIT_RE = re.compile(r"(?<![\w.])(?:[A-Za-z_][\w]*\.)?(?:" + "|".join(sorted(LIMIT_ATTRS)) + r")\b")
+TRANSPARENT = {"len", "min", "max", "abs", "int", "bool", "isinstance", "dict", "tuple", "list", "cast", "partial", "type", "repr", "str", "sorted", "set", "frozenset"}
+
+
+def _is_limit_term(e: ast.AST) -> bool:
+    return (isinstance(e, ast.Attribute) and e.attr in LIMIT_ATTRS) or (isinstance(e, ast.Name) and e.id in LIMIT_ATTRS)
+
+
+def _has_limit(e: ast.AST | None) -> bool:
+    """does the value depend on a limit through operators / transparent functions?  The result of any other call is a
+    new value: what that call does with a limit is judged where the call happens."""
+    if e is None:
+        return False
+    if _is_limit_term(e):
+        return True
+    if isinstance(e, ast.Call):
+        last = (dotted(e.func) or "").rsplit(".", 1)[-1]
+        if last not in TRANSPARENT:
+            return False
+    if isinstance(e, (ast.Lambda, ast.ListComp, ast.SetComp, ast.DictComp, ast.GeneratorExp)):
+        return any(_is_limit_term(x) for x in ast.walk(e))
+    return any(_has_limit(ch) for ch in ast.iter_child_nodes(e))
+
+
+def _r106(ctx: Ctx, dec: ClassInfo, fp: ClassInfo, mp: ClassInfo) -> None:
+    repo = ctx.repo
+    want = both(_not_dunder, lambda h: h.name != "get_content_length", mentions(LIMIT_ATTRS | {RETL}))
+    scope: list[NFunc] = []
+    for cls in (dec, fp, mp):
+        scope.extend(nf for _, nf in sorted(roots_of(repo, cls, want).items()))
+    for fq in ("formparser.parse_form_data", "wsgi.get_input_stream", "wrappers.request.Request.make_form_data_parser", "wrappers.request.Request.stream"):
+        scope.append(normalise(repo, repo.func(fq), want))
+    absorbed = {id(h) for nf in scope for h in nf.inlined}
+    for modname in ("werkzeug.formparser", "werkzeug.sansio.multipart"):
+        for fi in repo.module(modname).functions.values():
+            if id(fi) not in absorbed and not any(nf.orig is fi for nf in scope) and mentions(LIMIT_ATTRS)(fi):
+                scope.append(normalise(repo, fi, want))
+    signatures = {"MultipartDecoder": repo.func("sansio.multipart.MultipartDecoder.__init__"), "FormDataParser": repo.func("formparser.FormDataParser.__init__"),
+                  "MultiPartParser": repo.func("formparser.MultiPartParser.__init__"), "get_input_stream": repo.func("wsgi.get_input_stream"), "parse_form_data": repo.func("formparser.parse_form_data"),
+                  "form_data_parser_class": repo.func("formparser.FormDataParser.__init__")}
     nuse = 0
-    for fi in scope:
-        ff = F(fi)
-        # locals that are plain aliases of a limit (single definition `x = self.<limit>` / `x = <limit param>`)
-        alias_names = set()
-        for n in walk_no_nested(fi.node):
-            if isinstance(n, ast.Assign) and len(n.targets) == 1 and isinstance(n.targets[0], ast.Name) and _is_limit(n.value, LIMIT_ATTRS) and len(astq.assigns_to(fi.node, n.targets[0].id)) == 1:
-                alias_names.add(n.targets[0].id)
-        helper_kind = _accounting_helper(ctx, fi) if fi.cls is mp else None
-        for n in walk_no_nested(fi.node):
-            is_use = False
-            if isinstance(n, ast.Attribute) and n.attr in (LIMIT_ATTRS | COUNTERS) and isinstance(n.ctx, ast.Load):
-                is_use = True
-            elif isinstance(n, ast.Name) and n.id in (LIMIT_ATTRS | COUNTERS | alias_names) and isinstance(n.ctx, ast.Load):
-                is_use = True
-            if not is_use:
-                continue
+    for nf in scope:
+        fi = nf.orig
+        if not any(_is_limit_term(x) for x in ast.walk(nf.node)):
+            continue
+        sym = Sym(nf, repo=repo)
+        paths = sym.paths(max_paths=20000)
+        # state carried around a loop is unknown to a path that starts at the entry: one more set of paths starts at each
+        # loop head with everything the loop may change left open
+        for h in nf.cfg.nodes:
+            if h.kind == "loop" or (h.kind == "join" and isinstance(h.ast, ast.While) and getattr(h.ast, "_inlined_from", None) is None):
+                paths += sym.paths(start=h, stop=lambda n, h=h: n is h, env0=invariant_env(nf, h), max_paths=20000)
+        # site -> (node for the location, description of the use, verdicts over all paths)
+        sites: dict[tuple[int, str], tuple[ast.AST, str, list[tuple[bool, str]]]] = {}
+
+        def note(node: ast.AST, what: str, ok: bool, kind: str) -> None:
+            sites.setdefault((id(node), what), (node, what, []))[2].append((ok, kind))
+
+        for p in paths:
+            limits_seen: set[str] = set()
+            for k, v, n in p.conds:
+                if not _LIMIT_RE.search(k):
+                    continue
+                src = n.ast if n.ast is not None else fi.node
+                terms = sorted(set(m.group(0) for m in _LIMIT_RE.finditer(k)))
+                if k.endswith(" is None") and k[: -len(" is None")] in terms:
+                    note(src, f"`{terms[0]}`", True, "an is-None test")
+                elif k.startswith("GE0: "):
+                    limits_seen.update(terms)
+                    note(src, f"`{', '.join(terms)}`", True, "a guard comparison")
+                else:
+                    note(src, f"`{', '.join(terms)}`", False, f"NOT a pure guard: the condition `{k}` decides by truth value / equality of a limit")
+            for lt in sorted(limits_seen):
+                ex = exceed_conds(p, lt)
+                if ex and not raised_retl(p):
+                    node = next((n.ast for k, v, n in p.conds if (k, v) in ex and n.ast is not None), fi.node)
+                    note(node, f"`{lt}`", False, f"NOT a pure guard: on the exceeded side of `{ex[0][0]}` the path ends with {p.outcome}, not RequestEntityTooLarge")
+            for e in p.events:
+                if e.kind in ("call", "attempt") and isinstance(e.call, ast.Call):
+                    call = e.call
+                    vals = [(None, a) for a in call.args] + [(kw.arg, kw.value) for kw in call.keywords]
+                    if not any(_has_limit(v_) for _, v_ in vals):
+                        continue
+                    last = callee_last(e, True) or callee_last(e) or "?"
+                    if last in TRANSPARENT:
+                        continue  # the value goes on into whatever uses the result
+                    f_ = call.func
+                    if isinstance(f_, ast.Attribute) and not (isinstance(f_.value, ast.Name) and f_.value.id == (nf.selfname or "self")) and last not in signatures and not last.endswith("LimitedStream") and isinstance(e.raw, ast.Call) and isinstance(e.raw.func, ast.Attribute) and isinstance(e.raw.func.value, ast.Name) and e.raw.func.value.id not in nf.object_class and e.raw.func.value.id in Sym(nf)._locals():
+                        raise AnalysisError(f"{fi.fq}: a limit is passed to `{norm(e.raw)[:70]}`, a method of a local object whose class is not known: what it does with it cannot be decided")
+                    sig = signatures.get(last) or signatures.get(callee_last(e) or "")
+                    bound = bind_call(call, sig, bound=sig.name == "__init__") if sig is not None else None
+                    for i, (kwname, v_) in enumerate(vals):
+                        if not _has_limit(v_):
+                            continue
+                        pname = kwname
+                        if pname is None and bound is not None:
+                            pname = next((k_ for k_, bv in bound.items() if bv is v_), None)
+                        if last.endswith("LimitedStream"):
+                            is_lim = (kwname == "limit") or (kwname is None and i == 1)
+                            ism = astq.arg_or_kw(call, 2, "is_max")
+                            ok = is_lim and _is_limit_term(v_) and isinstance(ism, ast.Constant) and ism.value is True
+                            note(e.raw, f"`{norm(v_)}`", ok, "the limit of a maximum-limited stream" if ok else f"NOT a pure guard: passed to `{norm(call)[:70]}`")
+                        elif pname in LIMIT_ATTRS and _is_limit_term(v_):
+                            note(e.raw, f"`{norm(v_)}`", True, "a forwarding edge")
+                        else:
+                            note(e.raw, f"`{norm(v_)}`", False, f"NOT a pure guard: passed to `{norm(call)[:70]}`")
+                elif e.kind in ("store", "aug") and hasattr(e.call, "value") and _has_limit(e.call.value):
+                    tg = e.call.targets[0] if isinstance(e.call, ast.Assign) else e.call.target  # type: ignore[union-attr]
+                    rec = isinstance(tg, ast.Attribute) and isinstance(e.raw, (ast.Assign, ast.AnnAssign, ast.AugAssign)) and isinstance(tg.value, (ast.Name, ast.Call)) and e.kind == "store" and _is_limit_term(e.call.value)
+                    note(e.raw, f"`{norm(e.call.value)}`", bool(rec), "kept in a record of the function (read back only by guards)" if rec else f"NOT a pure guard: stored by `{norm(e.raw)[:70]}`")
+            if p.outcome in ("return", "fall"):
+                for key, v_ in p.env.items():
+                    if "." in key and key.split(".", 1)[0] == (nf.selfname or "self") and _has_limit(v_):
+                        attr = key.split(".", 1)[1]
+                        ok = attr in LIMIT_ATTRS and _is_limit_term(v_)
+                        note(fi.node, f"`{norm(v_)}` in {key}", ok, "a forwarding edge" if ok else f"NOT a pure guard: left in `{key}`")
+                if p.outcome == "return" and _has_limit(p.value):
+                    vv = p.value
+                    ok = isinstance(vv, ast.Call) and (callee := (dotted(vv.func) or "").rsplit(".", 1)[-1]) and (callee in signatures or callee.endswith("LimitedStream") or callee[:1].isupper()) and not any(_has_limit(a) and not isinstance(a, (ast.Name, ast.Attribute)) for a in vv.args)
+                    if not ok and isinstance(vv, ast.Call) and isinstance(vv.func, ast.Attribute) and isinstance(vv.func.value, ast.Call):
+                        ok = True  # a call on a freshly constructed object: the constructor event was classified
+                    if not ok:
+                        note(p.end.ast if p.end is not None and p.end.ast is not None else fi.node, f"`{norm(vv)[:60]}`", False, "NOT a pure guard: a limit is part of the returned value")
+        for (nid, what), (node, _, verdicts) in sites.items():
             nuse += 1
-            kind = _classify_use(ff, n, alias_names, helper_kind is not None)
-            st = astq.stmt_of(fi, n)
-            ctx.ob("R10.6", f"{fi.qualname}: use of `{norm(n)}` is {kind or 'NOT a pure guard'}", kind is not None, f"in `{norm(st)[:90]}`", fi, n, f"{fi.qualname} use {norm(n)} in {norm(st)[:60]}")
-    ctx.floor("R10.6", "uses of limits / counters", nuse, 25)
-
-
-def _attr_writes(cls, attr: str):
-    out = []
-    for name, fi in cls.methods.items():
-        for n in walk_no_nested(fi.node):
-            if isinstance(n, (ast.Assign, ast.AugAssign, ast.AnnAssign)):
-                tg = n.targets if isinstance(n, ast.Assign) else [n.target]
-                if any(astq.is_self_attr(t_, attr) for t_ in tg):
-                    out.append((n, fi))
-    return out
-
-
-def _accounting_helper(ctx: Ctx, h: FuncInfo) -> str | None:
-    """summary of a one-level helper `h(self, size, data)`: returns a description when h (1) compares the accumulated
-    size `size + len(data)` with max_form_memory_size and raises RequestEntityTooLarge on the exceeded edge, (2) returns
-    normally only past the not-exceeded edge or when the limit / the size is None, (3) returns the accumulated size."""
-    if len(h.params) != 3:
-        return None
-    _, psize, pdata = h.params
-    f = F(h)
-    cmps = [(t, _exceeds_edge(f, t, {"max_form_memory_size"})) for t in f.tests()]
-    cmps = [(t, r) for t, r in cmps if r is not None]
-    if len(cmps) != 1:
-        return None
-    t, (bounded, exc_label) = cmps[0]
-    bt = norm(f.al.expand(bounded, t))
-    acc_texts = {f"{psize} + len({pdata})", f"len({pdata}) + {psize}"}
-    acc_name = None
-    if bt not in acc_texts:
-        if isinstance(bounded, ast.Name):
-            defs = f.rd.reaching(t, bounded.id)
-            if defs and all(d.value is not None and (norm(d.value) in acc_texts or (d.kind == "aug" and norm(d.value) == f"len({pdata})" and bounded.id == psize)) for d in defs):
-                acc_name = bounded.id
-            else:
-                return None
-        else:
-            return None
-    if not _raises_retl(f.cfg, t, exc_label):
-        return None
-    ok_label = "F" if exc_label == "T" else "T"
-    skips = _skip_edges(f, {"max_form_memory_size"}, (psize,))
-    if f.cfg.exit.id in f.cfg.reach(avoid_edges=[(t, ok_label)] + skips):
-        return None
-    rets = astq.returns_of(h.node)
-    past = [r for r in rets if f.cfg.edge_dominates(t, ok_label, f.cfg.node_of(r))]
-    if not past or not all(norm(r.value) in acc_texts | ({acc_name} if acc_name else set()) for r in past):
-        return None
-    others = [r for r in rets if r not in past]
-    if not all(norm(r.value) in (psize, "None") for r in others):
-        return None
-    return f"raises RequestEntityTooLarge when {bt} exceeds max_form_memory_size, returns the accumulated size otherwise"
-
-
-def _classify_use(f: F, n: ast.AST, alias_names: set[str], in_helper: bool) -> str | None:
-    cfg = f.cfg
-    p = astq.parent(n)
-    if isinstance(p, ast.keyword) and p.arg in LIMIT_ATTRS:
-        return "a forwarding edge"
-    if isinstance(p, ast.Assign) and p.value is n and len(p.targets) == 1 and isinstance(p.targets[0], ast.Attribute) and p.targets[0].attr in LIMIT_ATTRS:
-        return "a forwarding edge"
-    if isinstance(p, ast.Assign) and p.value is n and len(p.targets) == 1 and isinstance(p.targets[0], ast.Name) and p.targets[0].id in alias_names:
-        return "the definition of a local alias (whose uses are classified too)"
-    if isinstance(p, ast.Call) and (dotted(p.func) or "").endswith("LimitedStream") and astq.kwarg(p, "is_max") is not None and norm(astq.kwarg(p, "is_max")) == "True" and len(p.args) > 1 and p.args[1] is n:
-        return "the limit of a maximum-limited stream"
-    cur = n
-    while astq.parent(cur) is not None and not isinstance(astq.parent(cur), (ast.stmt, ast.BoolOp)) and not (isinstance(astq.parent(cur), ast.UnaryOp) and isinstance(astq.parent(cur).op, ast.Not)):  # type: ignore[union-attr]
-        cur = astq.parent(cur)  # type: ignore[assignment]
-    if isinstance(cur, ast.Compare):
-        tn = [t for t in cfg.tests() if t.ast is cur]
-        if tn:
-            cp = astq.cmp_parts(cur)
-            if cp and isinstance(cp[1], (ast.Is, ast.IsNot)) and astq.is_none(cp[2]):
-                return "an is-None test"
-            ex = _exceeds_edge(f, tn[0], LIMIT_ATTRS)
-            if ex is not None and _raises_retl(cfg, tn[0], ex[1]):
-                return "a guard comparison whose exceeded edge only raises RequestEntityTooLarge"
-            return None
-    if in_helper:
-        # inside the accounting helper: the accumulated size `size + len(data)` and its return are the counter's update
-        st = cur
-        while st is not None and not isinstance(st, ast.stmt):
-            st = astq.parent(st)
-        if isinstance(st, (ast.Assign, ast.Return)) and isinstance(n, ast.Name) and n.id in COUNTERS | {f.fi.params[1]}:
-            return "the counter's own update (accounting helper)"
-    # passing the counter to the accounting helper: field_size = self._helper(field_size, event.data)
-    if isinstance(p, ast.Call) and isinstance(p.func, ast.Attribute) and astq.is_self_attr(p.func) and isinstance(n, ast.Name) and n.id in COUNTERS:
-        st = astq.parent(p)
-        if isinstance(st, ast.Assign) and len(st.targets) == 1 and astq.is_name(st.targets[0], n.id):
-            return "the counter's own update (through the accounting helper)"
-    return None
+            ok = all(v[0] for v in verdicts)
+            kinds = sorted({v[1] for v in verdicts if not v[0]}) or sorted({v[1] for v in verdicts})
+            st = node
+            while st is not None and not isinstance(st, ast.stmt):
+                st = astq.parent(st)
+            ctx.ob("R10.6", f"{fi.qualname}: use of {what} is {kinds[0]}", ok, f"in `{norm(st if st is not None else node)[:90]}` on {len(verdicts)} path(s)" + (f"; also: {kinds[1:]}" if len(kinds) > 1 else ""), fi, node, f"{fi.qualname} use {what} in {norm(node)[:60]}")
+    ctx.floor("R10.6", "uses of limits", nuse, 20)
